@@ -51,6 +51,8 @@ DIM_FAMILIES = [
     (lambda k, p: f"{p}dim{k}", "start-with-position-word"),
     (lambda k, p: ["T", "t", "Tt", "tT", "TT"][["center", "left", "right", "inner", "outer"].index(p)] + str(k), "case-variants"),
     (lambda k, p: f"dimension_{k}{p[0]}"[:12].ljust(12, "q"), "twelve-characters"),
+    # names that are keyword-argument names of the xarray methods xgcm calls (isel(drop=, indexers=, missing_dims=), rename(...), pad(mode=...))
+    (lambda k, p: ["drop", "indexers", "missing_dims", "mode", "dim"][["center", "left", "right", "inner", "outer"].index(p)] + ("" if k == 0 else str(k)), "xarray-keyword-names"),
 ]
 ROLES = ["X", "Y", "Z"]
 
@@ -93,6 +95,8 @@ BASE_OPS = [
     dict(op="min", axes={"X": ("center", "left"), "Y": ("center", "right", "outer")}, arr={"X": "left", "Y": "center"}, axis=["Y", "X"], to={"X": "center", "Y": "outer"},
          cboundary={"X": "extend", "Y": "fill"}, cfill={"Y": "S"}, gperiodic=["X"], extra=1, order=(2, 0, 1)),
     dict(op="cumsum", axes={"X": ("center", "outer")}, arr={"X": "center"}, axis="X", to="outer", cboundary="fill", cfill="S", extra=1),
+    dict(op="cumsum", axes={"X": ("center", "left", "inner")}, arr={"X": "center"}, axis="X", to="left", cboundary="fill", cfill="S", extra=1),
+    dict(op="cumsum", axes={"X": ("center", "left", "inner")}, arr={"X": "center"}, axis="X", to="inner", cboundary="extend", extra=0),
     dict(op="diff", axes={"X": ("center", "left"), "Y": ("center", "left"), "Z": ("center", "outer")}, arr={"X": "center", "Y": "left", "Z": "outer"}, axis=["Z", "X"], to=None,
          gboundary={"X": "extend", "Z": "fill"}, gperiodic={"X": False, "Y": True, "Z": False}),
 ]
